@@ -45,7 +45,8 @@ def work(job):
         if j == 0:
             at, pres = c["atoms"], {"p_index": 0, "as_generated": True}
         else:
-            at, pres = crystals.present(c["atoms"], rng, p_index=(sg + stream + 3 * j) % len(crystals.PRESENT_P), unwrap=bool(j % 2 == 0))
+            at, pres = crystals.present(c["atoms"], rng, p_index=(sg + stream + 3 * j) % len(crystals.PRESENT_P), unwrap=bool(j % 2 == 0),
+                                        primitive=bool(j % 3 == 1))
         r = {"sg": sg, "cid": "%d/%d/%s" % (sg, stream, "".join(letters or [])), "j": j, "pres": pres, "gen_letters": c["letters"], "two_dimensional": False,
              "gen_species": c["species"]}
         try:
